@@ -332,7 +332,7 @@ def graph_case(desc):
     adj = None
     if has_adj:
         adj = _matrix((n, n), desc['indptr'], desc['indices'], desc['data'], desc.get('dtype', 'float'))
-        es = _entries(desc['indptr'], desc['indices'], desc['data'])
+        es = _entries(adj.indptr.tolist(), adj.indices.tolist(), [Fraction(float(v)) for v in adj.data])
         kwargs['adjacency'] = adj
     pos = desc['position']
     if pos is not None:
@@ -409,7 +409,7 @@ def bigraph_case(desc):
     o = desc['opts']
     nr, nc = desc['shape']
     b = _matrix((nr, nc), desc['indptr'], desc['indices'], desc['data'], desc.get('dtype', 'float'))
-    es = _entries(desc['indptr'], desc['indices'], desc['data'])
+    es = _entries(b.indptr.tolist(), b.indices.tolist(), [Fraction(float(v)) for v in b.data])
     kwargs = {'biadjacency': b}
     toks = ['n_row=%d' % nr, 'n_col=%d' % nc, 'es=' + enc_entries(es)]
     for side in ('row', 'col'):
@@ -776,7 +776,7 @@ def gen_graph_cases(ctx):
     # structured random graphs with rich options
     for name, n, es, w in graphs.suite(rng, 70 if quick else 700, 2, 10):
         wts = [rng.choice([1, 2, 3, 0.5, 8]) for _ in es]
-        if all((j, i) in set(es) for i, j in es):
+        if all((j, i) in set(es) for i, j in es) and rng.random() < 0.8:   # else: symmetric structure, asymmetric weights
             sw = {}
             wts = [sw.setdefault((min(i, j), max(i, j)), rng.choice([1, 2, 0.5])) for i, j in es]
         dtype = rng.choice(['float', 'float', 'int', 'bool'])
